@@ -14,13 +14,24 @@
   `C01_run_no_panic_bracket_partial`: the same with `bracket*` added (precondition:
   non-empty, equal-length, disjoint slices), under the scanner contract `ScanOK` and from a
   well-formed lexer: the four `unwrap`s of `match_nested_brackets` are never reached.
-  Missing for the full statement (`C01_run_statement`): the panic site of `text`
-  (`Source.sliceBytes`: needs the lexer positions to be character boundaries of the text,
-  i.e. a position invariant carried through `run`) and of `list` (the `debug_assert` on the
-  recover state in `finish`: needs the fact that after a value the next token is a separator
-  or an abort token, so that the separator step never recovers).
-  In progress: those two, and the renderer.  Carried meanwhile by the `nopanic` family and by the panic checks
-  run on every grammar-level case (parse, report rendering, lexer Display).
+  `C01_run_no_panic` (= `C01_run_statement`, proved): all of `G`, `text` and `list` included.
+    * `text`: `Source.sliceBytes` is called on two positions stored in lexers; every stored
+      position is a character boundary of the text (invariant carried through `run`, from
+      `RunSpans.spAt` with `P := NoPanic.Bd R`), and the end is taken as the max of the two.
+    * `list`: the model of the `debug_assert!` on the recover state in `finish` fires exactly
+      when at least one value has been collected and the lexer still carries a recover state.
+      Loop invariant: once a value has been collected the loop's lexer carries none —
+      `stabilize` clears it after every value, and after a value the next token is the
+      separator, an abort token or the end (by `up_to` when the item parser succeeded, by
+      `advance_to_recover` with the list's own closure `sep_or_abort` otherwise), so the
+      separator step `recover_default(discard(one(sep)))` succeeds without recovering.
+      This needs the list's closure id to stand for `sep_or_abort` in the world
+      (`IdsFunctional`: two nodes sharing an id carry the same predicate; in the Rust every
+      closure is its own object).
+  `C01_run_no_panic_from`: the same from any well-formed lexer whose positions are character
+  boundaries and any world whose registered closures agree with the grammar's.
+  Still carried by the `nopanic` family and the panic checks run on every grammar-level case:
+  the renderer (see C16) and the lexer `Display`.
 -/
 import TephraProps.C18
 import TephraProps.C19
@@ -28,6 +39,8 @@ import TephraProps.C20
 import TephraModel.Run
 import TephraProofs.NoPanic
 import TephraProofs.NoPanicBr
+import TephraProofs.NoPanicAll
+import TephraProofs.BracketRefine
 import TephraProofs.LexInv
 import TephraProofs.Termination
 
@@ -58,15 +71,35 @@ theorem C01_run_no_panic_bracket_partial {R : RunEnv} {m : Metrics} {len : Nat} 
     (run R n g lx ctx W).1 ≠ .panic :=
   NoPanic.run_no_panic_br ok n g lx ctx W wf hf
 
-/-- The full statement of the interpreter part of C01 (NOT proved; `text` and `list` are
-missing): on any grammar within the documented preconditions (`NoPanic.Pre`), for a scanner
-satisfying the scanner contract and returning character boundaries of the text, from the
-initial state, `run` never reaches a panic site. -/
+/-- The full statement of the interpreter part of C01 (proved below: `C01_run_no_panic`): on any
+grammar within the documented preconditions (`NoPanic.Pre`), for a scanner satisfying the
+scanner contract and returning character boundaries of the text, from the initial state,
+`run` never reaches a panic site. -/
 def C01_run_statement : Prop :=
   ∀ (R : RunEnv) (m : Metrics) (len : Nat), ScanOK R.E m len → bytes R.text = len →
   Closed R.E (fun p => (splitAtByte R.text p.byte).isSome = true) m →
   ∀ (g : G), NoPanic.Pre g → Term.IdsFunctional (Term.recIds g) →
   ∀ (n s0 : Nat) (ctx : Ctx), (run R n g (Lexer.new s0 m len) ctx World.init).1 ≠ .panic
+
+/-- General form: all of `G` (`text`, `bracket`, `list` included), from any lexer that is well
+formed for the text (`Term.WF`) and stores character boundaries only (`PosOK (NoPanic.Bd R)`,
+`NoPanic.Bd R p` = "`p.byte` is a character boundary of `R.text`"), and any world whose registered
+recover closures agree with a table `T` the grammar's `recover`/`list` nodes agree with
+(`Term.WOK`, `Term.Consistent`) and whose logged errors carry character boundaries. -/
+theorem C01_run_no_panic_from {R : RunEnv} {m : Metrics} {len : Nat} {T : Nat → Rec}
+    (ok : ScanOK R.E m len) (hcl : Closed R.E (NoPanic.Bd R) m)
+    (n : Nat) (g : G) (lx : Lx) (ctx : Ctx) (W : World)
+    (wf : Term.WF m len lx) (hpos : PosOK (NoPanic.Bd R) lx)
+    (hw : Term.WOK T W) (hlog : ∀ e ∈ W.log, ErrQ (fun _ => True) (NoPanic.Bd R) e.body)
+    (hc : Term.Consistent T g) (hf : NoPanic.Pre g) : (run R n g lx ctx W).1 ≠ .panic :=
+  NoPanic.run_no_panic_all ⟨ok, hcl⟩ n g lx ctx W ⟨wf, ⟨hpos, wf.hmet⟩⟩ ⟨hw, hlog⟩ hc hf
+
+/-- **C01, interpreter part**: running any parser assembled from the combinators within their
+documented argument preconditions never panics. -/
+theorem C01_run_no_panic : C01_run_statement := by
+  intro R m len ok _ hcl g hf hids n s0 ctx
+  exact NoPanic.run_no_panic_all (T := Term.tableOf (Term.recIds g)) ⟨ok, hcl⟩ n g _ ctx World.init
+    (NoPanic.SL_new s0) NoPanic.SW_init (Term.consistent_tableOf g hids) hf
 
 /-- the preconditions are necessary: the empty token list panics. -/
 example (R : RunEnv) (lx : Lx) (ctx : Ctx) (W : World) : (run R 1 (.any []) lx ctx W).1 = .panic := by
@@ -78,5 +111,58 @@ example : NoPanic.Frag2 (.bracket 3 [6] (.any [0]) [7] [5]) := by
 
 example : NoPanic.Frag (.stabilize (.recover 1 0 (.repeat_ 0 1 (some 3) (.either (.any [0, 1]) (.one 2))) (.before 4))) := by
   simp [NoPanic.Frag, hiBelow]
+
+/-! ### non-vacuity of `C01_run_no_panic`: a grammar with `text`, `list`, `bracket`, `recover` over a
+concrete scanner and text -/
+
+open BracketRefine.Witness in
+/-- the text `a,a;` (four one-byte characters) and the table scanner over its token kinds -/
+private def RW : RunEnv := ⟨tabEnv [0, 4, 0, 5], [⟨97, 1, 1⟩, ⟨44, 1, 1⟩, ⟨97, 1, 1⟩, ⟨59, 1, 1⟩]⟩
+
+/-- `text(list_bounded(1, 3, one(a), ',', [';']))` followed by a recovering bracket parser -/
+private def gW : G :=
+  .both (.text (.list 1 7 1 (some 3) (.one 0) 4 [5]))
+    (.recover 1 8 (.bracket 3 [6] (.text (.list 2 9 0 none (.any [0]) 4 [7])) [7] [5]) (.before 5))
+
+private theorem gW_pre : NoPanic.Pre gW := by
+  simp [gW, NoPanic.Pre, NoPanic.BrPre, hiBelow]
+
+private theorem gW_ids : Term.IdsFunctional (Term.recIds gW) := by
+  intro p hp q hq h
+  simp only [gW, Term.recIds, List.cons_append, List.nil_append, List.mem_cons, List.not_mem_nil, or_false] at hp hq
+  rcases hp with rfl | rfl | rfl <;> rcases hq with rfl | rfl | rfl <;> first | rfl | (exfalso; revert h; decide)
+
+open BracketRefine.Witness in
+private theorem RW_closed (m : Metrics) : Closed RW.E (fun p => (splitAtByte RW.text p.byte).isSome = true) m := by
+  intro s p tok adv s' _ h
+  simp only [RW, tabEnv, scanTab] at h
+  split at h
+  · next k hk =>
+    cases h
+    have hlt : p.byte < 4 := by
+      apply Nat.lt_of_not_le; intro hle
+      rw [List.getElem?_eq_none (by simpa using hle)] at hk; cases hk
+    show (splitAtByte RW.text (p.byte + 1)).isSome = true
+    have : p.byte = 0 ∨ p.byte = 1 ∨ p.byte = 2 ∨ p.byte = 3 := by omega
+    rcases this with h | h | h | h <;> rw [h] <;> decide
+  · cases h
+
+open BracketRefine.Witness in
+example (n s0 : Nat) (ctx : Ctx) : (run RW n gW (Lexer.new s0 ⟨.lf, 4⟩ 4) ctx World.init).1 ≠ .panic :=
+  C01_run_no_panic RW ⟨.lf, 4⟩ 4 (tab_ok [0, 4, 0, 5] _) (by decide) (RW_closed _) gW gW_pre gW_ids n s0 ctx
+
+/-! ### `IdsFunctional` is necessary in the model: when a `recover` node and a `list` node share a closure
+id with different predicates, the list's own `advance_to_recover` calls use the wrong predicate
+(`World.register` keeps the first), the separator step recovers, and `finish` meets a recover state.
+(Not a defect of the Rust code, where every closure is its own object: ids are a modelling device.) -/
+
+open BracketRefine.Witness in
+example : (run ⟨tabEnv [2, 1, 3, 1, 5], []⟩ 9 (.both (.recover 1 7 .empty (.after 1)) (.list 1 7 0 none (.one 0) 4 [5]))
+    (Lexer.new 0 ⟨.lf, 4⟩ 5) ⟨true, [], false⟩ World.init).1 = .panic := by
+  simp [run, Term.listLoop_succ, Term.listFinish, Term.listItem, Term.listDv, recoverDefault, stabValue, stabLoop,
+    advanceToRecover, recoverLoop, askRecover, World.register, World.init, sendError, mkErr, Lexer.new, Lexer.peek,
+    Lexer.next, Lexer.bufferNext, Lexer.bufferLoop, Lexer.filtered, Lexer.setRecoverState, Lexer.intoSublexer,
+    Lexer.startSublex, Lexer.isEmpty, tabEnv, scanTab, Pos.zero, Ctx.apply, Ctx.withoutSink, hiBelow, hiReached,
+    Lexer.parseSpan, Lexer.tokenSpan, Span.enclosing]
 
 end Tephra.Props
